@@ -203,6 +203,12 @@ impl WireEncode for StandardPath {
             return Err("Standard path must contain at least one segment".into());
         }
 
+        // curr_hop_field is a 6 bit field on the wire, hop fields beyond index 63 could never
+        // become the current hop field (the index would be truncated on encoding).
+        if self.hop_field_count() > StdPathMetaLayout::MAX_CURR_HOP_FIELD + 1 {
+            return Err("Number of hop fields exceeds what curr_hop_field can address".into());
+        }
+
         if self.current_hop_field as usize >= self.hop_field_count() {
             return Err("curr_hop_field exceeds total number of hop fields".into());
         }
